@@ -216,7 +216,8 @@ def script_text(spec: Spec, variant: int, dofile: str, gates: bool = False) -> s
         kp()
     for i, (cmd, names) in enumerate(spec.seq):
         q = " ".join('"%s"' % n.replace("%", "$2") for n in names)
-        tool = "redo-ifchange" if cmd == "ifchange" else "redo"
+        # "redo-fresh": a redo that is told nothing about the jobserver above it (MAKEFLAGS removed from its environment)
+        tool = "redo-ifchange" if cmd == "ifchange" else "env -u MAKEFLAGS redo" if cmd == "redo-fresh" else "redo"
         core = f'rc=0; {tool} {q} || rc=$?; echo "Q $rv_n {i} $rc" >> "$RV_TRACE"'
         L.append(('vgate n "work-end $rv_n"; ' + core + '; vgate n "work-begin $rv_n"') if gates else core)
     if spec.seq:
